@@ -9,6 +9,7 @@ package main
 
 import (
 	"fmt"
+	"go/types"
 	"go/token"
 	"strings"
 
@@ -452,4 +453,107 @@ func (c *Ctx) noStdoutInLibrary() {
 		}
 	}
 	c.ok("library:stdout", 0, "%d use(s) of standard output in the library, all in the console index store", n)
+}
+
+// retriedReaderFresh: a stateful reader (a pipe, a bytes/strings reader, a buffer, a file) that is
+// handed to a consuming call inside a retry cycle must be created inside that cycle: created
+// before it, the first attempt drains it and every retry uploads an empty or truncated body while
+// the call itself succeeds.
+func (c *Ctx) retriedReaderFresh() {
+	makers := map[string]bool{"io.Pipe": true, "bytes.NewReader": true, "bytes.NewBuffer": true, "bytes.NewBufferString": true, "strings.NewReader": true, "os.Open": true, "bufio.NewReader": true}
+	n, cyc := 0, 0
+	for _, fn := range c.libFuncs() {
+		for _, b := range fn.Blocks {
+			inCycle := false
+			for _, s := range b.Succs {
+				if s == b || reachableFrom(s, nil)[b] {
+					inCycle = true
+				}
+			}
+			if !inCycle {
+				continue
+			}
+			cycleBlocks := map[*ssa.BasicBlock]bool{}
+			for _, x := range fn.Blocks {
+				if reachableFrom(b, nil)[x] && reachableFrom(x, nil)[b] {
+					cycleBlocks[x] = true
+				}
+			}
+			for _, ins := range b.Instrs {
+				call, ok := ins.(*ssa.Call)
+				if !ok {
+					continue
+				}
+				name := callee(call)
+				// consumers: uploads and copies
+				if !(strings.HasSuffix(name, ".Client).PutObject") || strings.HasSuffix(name, ").StoreObject") || name == "io.Copy" || name == "io.CopyN" || strings.HasSuffix(name, "http.NewRequest") || strings.HasSuffix(name, "http.NewRequestWithContext")) {
+					continue
+				}
+				cyc++
+				for _, a := range call.Call.Args {
+					if !types.IsInterface(a.Type()) && !strings.Contains(a.Type().String(), "Reader") && !strings.Contains(a.Type().String(), "Buffer") {
+						continue
+					}
+					for _, l := range leaves(a) {
+						mk, idx := callOf(l)
+						if mk == nil || !makers[callee(mk)] {
+							continue
+						}
+						// the source side of io.Copy only (the first result of io.Pipe is the reader)
+						if callee(mk) == "io.Pipe" && idx != 0 {
+							continue
+						}
+						n++
+						key := fmt.Sprintf("%s:%s->%s", fnKey(fn), callee(mk), name)
+						c.verdict(cycleBlocks[mk.Block()], key, call.Pos(), "the reader is created inside the retry cycle",
+							fmt.Sprintf("the reader created by %s at %s outside the retry cycle is consumed by %s inside it: the first attempt drains it, a retry sends an empty or truncated body and still succeeds", callee(mk), c.pos(mk.Pos()), name))
+					}
+				}
+			}
+		}
+	}
+	c.ok("retried-readers", 0, "%d consuming call(s) inside a cycle, %d reader argument(s) created by a stateful constructor, all inside the cycle", cyc, n)
+}
+
+// nullChunkConsistent: the zero-run shortcuts (parallel chunking, assembly, seekable reads, the
+// copy-on-read file) use NullChunk.ID as "the id of NullChunk.Data" and len(NullChunk.Data) as
+// the unit they advance by.  NewNullChunk must therefore hash exactly the bytes it stores, and
+// those are a buffer of its own, make([]byte, size).
+func (c *Ctx) nullChunkConsistent() {
+	fn := c.mustFn("NewNullChunk")
+	if fn == nil {
+		return
+	}
+	var data, hashed ssa.Value
+	instrs(fn, func(_ *ssa.BasicBlock, _ int, ins ssa.Instruction) {
+		st, ok := ins.(*ssa.Store)
+		if !ok {
+			return
+		}
+		fa, ok := st.Addr.(*ssa.FieldAddr)
+		if !ok {
+			return
+		}
+		switch fieldOf(fa) {
+		case "NullChunk.Data":
+			data = st.Val
+		case "NullChunk.ID":
+			for _, l := range leaves(st.Val) {
+				if call, _ := callOf(l); call != nil && callee(call) == "(desync.HashAlgorithm).Sum" {
+					hashed = call.Call.Args[len(call.Call.Args)-1]
+				}
+			}
+		}
+	})
+	if data == nil || hashed == nil {
+		c.bad("NewNullChunk:fields", fn.Pos(), "NewNullChunk does not set Data and ID = Digest.Sum(..)")
+		return
+	}
+	same := stripConv(data) == stripConv(hashed)
+	c.verdict(same, "NewNullChunk:id-of-data", fn.Pos(), "the ID is the digest of exactly the stored Data", "the ID is computed over something else than the stored Data (a sub-slice or another buffer): shortcuts that advance by len(Data) emit chunks whose recorded ID does not match their bytes")
+	own := false
+	if mk, ok := stripConv(data).(*ssa.MakeSlice); ok {
+		own = hasOrigin(mk.Len, func(o string) bool { return strings.HasPrefix(o, "param:") })
+	}
+	c.verdict(own, "NewNullChunk:own-buffer", fn.Pos(), "Data is a buffer of its own, sized by the parameter", "Data is not a fresh make([]byte, size): a shared buffer has the length of the largest size ever asked for")
 }
